@@ -586,6 +586,13 @@ func (c15) Exec(c string) (string, []Fail) {
 		op = v
 	}
 	switch op {
+	case "conc": // the searches under concurrent use (c15_conc.go)
+		return c15ExecConc(base)
+	case "race":
+		if len(w) < 2 || w[1] != "conc" {
+			return "bad-op", nil
+		}
+		return c15Race(strings.TrimPrefix(base, "race "))
 	case "cw":
 		if len(w) != 3 {
 			return "bad-op", nil
@@ -2131,4 +2138,6 @@ func (c15) Gen(rng *rand.Rand, tier string, emit func(string)) {
 			}
 		}
 	}
+	// ---- the searches under concurrent use (LAST: the cases above keep their PRNG draws)
+	c15GenConc(rng, tier, emit)
 }
